@@ -182,7 +182,7 @@ fn main() {
     }
 
     // ---- random: medium lengths, every value class ------------------------------------------
-    let nrand = ctx.budget(300, 6000);
+    let nrand = ctx.cbudget(300, 6000);
     for _ in 0..nrand {
         if let Some(mut rng) = ctx.random_case() {
             let len = rng.range_usize(1, 80);
@@ -196,7 +196,7 @@ fn main() {
     }
 
     // ---- stress: long histories (drift) -----------------------------------------------------
-    let nlong = ctx.budget(6, 60);
+    let nlong = ctx.cbudget(6, 60);
     for k in 0..nlong {
         if let Some(mut rng) = ctx.random_case() {
             let len = if ctx.thorough() { rng.range_usize(20_000, 100_000) } else { rng.range_usize(4_000, 12_000) };
